@@ -113,7 +113,18 @@ type TARun struct {
 	stalls             int
 }
 
+type stderrLogger struct{}
+
+func (stderrLogger) Write(b []byte) (int, error)       { return os.Stderr.Write(b) }
+func (stderrLogger) WriteString(s string) (int, error) { return os.Stderr.WriteString(s) }
+
 func taInit() {
+	if os.Getenv("TA_LOG") != "" {
+		util.SetPrintLogger(stderrLogger{})
+		util.LogTeeWriter(stderrLogger{})
+		syntax.SetEnforcementLevel(syntax.EnforceError)
+		return
+	}
 	util.SetPrintLogger(devNullLogger{})
 	util.LogTeeWriter(devNullLogger{})
 	syntax.SetEnforcementLevel(syntax.EnforceError)
@@ -183,6 +194,10 @@ func NewTARun(src string, scratch string, seed int64, opts TAOpts) (*TARun, erro
 func (r *TARun) Close() {
 	if r.ps != nil {
 		r.ps.Unlock()
+	}
+	if os.Getenv("TA_KEEPDIR") != "" {
+		fmt.Fprintln(os.Stderr, "kept:", r.PsDir)
+		return
 	}
 	os.RemoveAll(filepath.Dir(r.PsDir))
 }
